@@ -488,9 +488,9 @@ def c09_cases(tier):
     """the wire-relevant projection of the generated code is the same under every combination of the wire-neutral options"""
     schema = ("interface Named { name: String } type HTTPEndpoint implements Named { name: String url: String } type rate_limit implements Named { name: String n: Int } "
               "union Thing = HTTPEndpoint | rate_limit enum Kind { A_b where } scalar Date input In { type: Kind when_at: Date ids: [ID!] } "
-              "type Query { named: Named thing: Thing kind(in: In, plain_arg: Int): Kind when: Date }")
-    q = ("fragment N on Named { __typename name } query my_op($in: In, $plain_arg: Int) { named { __typename ...N ... on HTTPEndpoint { url } } "
-         "thing { __typename ... on rate_limit { n } } kind(in: $in, plain_arg: $plain_arg) when }")
+              "type Query { named: Named thing: Thing kind(in: In, plain_arg: Int, id: ID): Kind when: Date }")
+    q = ("fragment N on Named { __typename name } query my_op($in: In, $plain_arg: Int, $id: ID) { named { __typename ...N ... on HTTPEndpoint { url } } "
+         "thing { __typename ... on rate_limit { n } } kind(in: $in, plain_arg: $plain_arg, id: $id) when }")
     base = {"mode": "cli"}
     variants = [{"normalization": "rust"}, {"response_derives": "Debug,Clone,PartialEq"}, {"variables_derives": "Debug,Default"},
                 {"custom_scalars_module": "crate::scalars"}, {"serde_path": "my_serde"},
@@ -513,27 +513,78 @@ def c09_cases(tier):
         yield case, oracle
 
 
+def _by_value_cycle(t):
+    """names on a cycle of by-value containment (struct member / enum payload / type alias without Box or Vec) in whitespace-free tokens, or None"""
+    edges = {}
+    for name, fields in _structs(t).items():
+        edges.setdefault(name, [])
+        for f, (_, ty) in fields.items():
+            edges[name].append(ty)
+    for m in re.finditer(r"pubenum([A-Za-z0-9_]+)\{([^{}]*)\}", t):
+        edges.setdefault(m.group(1), [])
+        for v in re.findall(r"\(([^()]*)\)", re.sub(r"#\[[^\]]*\]", "", m.group(2))):
+            edges[m.group(1)].append(v)
+    for m in re.finditer(r"pubtype([A-Za-z0-9_]+)=([^;]*);", t):
+        edges.setdefault(m.group(1), []).append(m.group(2))
+    names = list(edges)
+    graph = {n: set() for n in names}
+    for n, tys in edges.items():
+        for ty in tys:
+            if "Box<" in ty or "Vec<" in ty:
+                continue
+            for m in names:
+                if re.search(r"(?<![A-Za-z0-9_])%s(?![A-Za-z0-9_])" % re.escape(m), ty):
+                    graph[n].add(m)
+    color = {}
+
+    def dfs(u, stack):
+        color[u] = 1
+        stack.append(u)
+        for v in graph[u]:
+            if color.get(v) == 1:
+                return stack[stack.index(v):]
+            if v not in color:
+                r = dfs(v, stack)
+                if r:
+                    return r
+        stack.pop()
+        color[u] = 2
+        return None
+    for n in names:
+        if n not in color:
+            r = dfs(n, [])
+            if r:
+                return r
+    return None
+
+
 def c02_cases(tier):
     """every type a generated module mentions is defined in it exactly once (or is a std / prelude name)"""
     schema = ("scalar Date scalar Money enum Kind { A B } enum Unused { X } interface Named { name: String } "
-              "type Dog implements Named { name: String born: Date kind: Kind owner: Person } type Cat implements Named { name: String price: Money } "
-              "type Person { name: String since: Date pets: [Pet!] } union Pet = Dog | Cat "
+              "type Dog implements Named { name: String born: Date kind: Kind owner: Person best: Named } type Cat implements Named { name: String price: Money } "
+              "type Person { name: String since: Date pets: [Pet!] bestie: Person } union Pet = Dog | Cat "
               "input Range { from: Date to: Date inner: Inner } input Inner { kind: Kind amount: Money again: Range } "
-              "type Query { me(at: Date, range: Range, kind: Kind, n: Int): Person pet: Pet named: Named }")
+              "type Query { me(at: Date, range: Range, kind: Kind, n: Int, id: ID, ids: [ID!]): Person pet: Pet named: Named }")
     queries = [
         "query Q($at: Date) { me(at: $at) { name } }",
+        "query Q($id: ID, $ids: [ID!]) { me(id: $id, ids: $ids) { name } }",
         "query Q($range: Range) { me(range: $range) { name since } }",
         "query Q($kind: Kind, $n: Int) { me(kind: $kind, n: $n) { name } }",
         "fragment P on Person { since pets { __typename ... on Dog { born kind } ... on Cat { price } } } query Q { me { ...P } }",
         "fragment D on Dog { born owner { ...P } } fragment P on Person { name pets { __typename ...D } } query Q { pet { __typename ...D } }",
         "query Q { named { __typename name ... on Dog { kind } } pet { __typename ... on Cat { price } } }",
         "query A($at: Date) { me(at: $at) { name } } query B { pet { __typename ... on Dog { kind } } }",
+        "fragment Tree on Named { __typename name ... on Dog { owner { pets { __typename ...PetTree } } } } fragment PetTree on Pet { __typename ... on Dog { kind } } query Q { named { ...Tree } }",
+        "fragment Anc on Named { __typename name ... on Dog { best { ...Anc } } } query Q { named { ...Anc } }",
+        "fragment P on Person { name bestie { ...P } } query Q { me { ...P } }",
     ]
     known = set("Option Vec Box String bool i64 f64 u8 Self str super crate std serde Serialize Deserialize graphql_client".split())
     for q in queries:
-        for mod in (None, "crate::scalars"):
+        for mod in (None, "crate::scalars", "rust-normalization"):
             opts = {"mode": "cli"}
-            if mod:
+            if mod == "rust-normalization":
+                opts["normalization"] = "rust"
+            elif mod:
                 opts["custom_scalars_module"] = mod
             case = {"schema": schema, "query": q, "options": opts}
 
@@ -564,6 +615,9 @@ def c02_cases(tier):
                     for em in re.finditer(r"pubenum[A-Za-z0-9_]+\{([^{}]*)\}", t):
                         for v in re.findall(r"\(([^()]*)\)", re.sub(r"#\[[^\]]*\]", "", em.group(1))):
                             mentioned |= set(re.findall(r"[A-Za-z_][A-Za-z0-9_]*", v))
+                    cyc = _by_value_cycle(t)
+                    if cyc:
+                        return "module %s: the types %s contain each other by value (infinite size, rustc E0072) for `%s`" % (mname, cyc, q[:80])
                     missing = sorted(m for m in mentioned if m not in known and m not in defs)
                     if missing:
                         return "module %s mentions %s without defining or importing it (operation `%s`, custom scalars module %s)" % (mname, missing, q[:60], mod)
@@ -643,8 +697,10 @@ def c08_cases(tier):
     d = os.path.join(WORK, "replay-files")
     good_s = os.path.join(d, "c08_schema.graphql")
     good_q = os.path.join(d, "c08_query.graphql")
-    open(good_s, "w").write("type Query { a: Int }")
-    open(good_q, "w").write("query Q { a }")
+    # several enums / custom scalars / inputs / fragments: every ordered collection of the generator takes part in the output
+    open(good_s, "w").write("scalar Url scalar DateTime scalar Cursor enum Status { A B } enum Color { R G } enum Size { S M } enum Shape { X Y } input In { c: Color s: Size u: Url } "
+                            "type T { st: Status co: Color si: Size sh: Shape u: Url d: DateTime c: Cursor } type Query { a(i: In, sh: Shape): T }")
+    open(good_q, "w").write("fragment F on T { st co } fragment G on T { si sh } query Q($i: In, $sh: Shape) { a(i: $i, sh: $sh) { ...F ...G u d c } }")
     missing = os.path.join(d, "c08_missing.graphql")
     if os.path.exists(missing):
         os.remove(missing)
@@ -667,6 +723,15 @@ def c08_cases(tier):
                 return "a call issued after a call on a different file with the same base name differs from the same call in a fresh process"
             return None
         yield {"calls": hist}, oracle2
+    # the same call in two fresh processes
+    def oracle3(res):
+        if res["exit"] != 0 or not res["out"]:
+            return "process died: %s" % res["stderr"]
+        again = run_case({"calls": [ok]})
+        if not again["out"] or again["out"]["results"][0].get("tokens") != res["out"]["results"][0].get("tokens"):
+            return "the same call gives different token streams in two fresh processes"
+        return None
+    yield {"calls": [ok]}, oracle3
     for hist in ([ok, bad, ok], [bad, ok], [ok, ok], [bad, bad, ok]):
         case = {"calls": hist}
 
